@@ -8,6 +8,25 @@
 
   `rank [c_k, …, c_1] = Σ_i C(c_i, i)` (`Lemmas/UnrankRank.lean`), lists are compared with the
   lexicographic order of core `List` (`<` on `List Int`).
+
+  CLAUSE MAP (property text → theorem)
+  * "for all n and k, mapping the indices 0..C(n,k)-1 to combinations …" -- the function is total and
+    error-free on that domain (no division by zero, the `while` terminates within its fuel):
+        `C15_no_error`, loop invariant `C15_invariant`
+  * "… enumerates every k-element subset of {0..n-1}" (onto):   `C15_surjective`, `C15_unrank_rank`
+  * "… exactly once" (one-to-one):                              `C15_injective`, `C15_rank_unrank`
+  * "… as strictly descending tuples" (below n, length k):      `C15_valid`
+  * "… in ascending order of those tuples":                     `C15_monotone`, `C15_monotone_iff`
+  * the four clauses together, as ONE statement about the list of all outputs:  `C15_enumeration`
+  * "consequently the triples used for scoring are pairwise distinct":          `C15_callsite` (`Nodup`), `C15_triples`
+  * "… lie within range":                                       `C15_callsite` (`n > i > j > l`)
+  * "… and are all triples whenever the budget covers them":    `C15_callsite` (`Perm (Dbal.allTriples n)`), `C15_triples`
+  * the call site never unranks an index ≥ C(n,k) (where the function would repeat the last
+    combination): `C15_callsite_population` (k = 3, the modelled call site), `C15_callsite_general_k` (all k)
+  * harness-only: that `rng.choice(N, size, replace=False)` returns `size` pairwise distinct elements of
+    `range(N)` (numpy's generator law: hypothesis `ChoiceContract`, re-observed on every recorded draw);
+    that numpy fancy indexing gathers exactly at `idx1/idx2/idx3` (container fidelity: observed through
+    recording arrays); Python big-integer arithmetic = `Int` (translator, tied by the driver run).
 -/
 import Batchie.Lemmas.UnrankRank
 import Batchie.Lemmas.UnrankCallsite
@@ -156,6 +175,61 @@ theorem C15_triples (n : Nat) :
   · intro p hp
     exact (hp.map _).trans ((List.perm_ext_iff_of_nodup hnodup (nodup_allTriples n)).2 hmem)
 
+/-! ### the enumeration as a list; the call site for general `k` -/
+
+/-- THE ENUMERATION, literally as in the property text: mapping the indices `0 .. C(n,k)-1` (in
+    order) to combinations gives a list of `C(n,k)` tuples that is strictly ascending for the
+    lexicographic order, has no repetition, and whose members are exactly the strictly descending
+    `k`-tuples below `n` (= the `k`-element subsets of `{0..n-1}`).  All `n`, all `k`. -/
+theorem C15_enumeration (n k : Nat) :
+    ((List.range (n.choose k)).map (fun idx => out idx n k)).length = n.choose k ∧
+    ((List.range (n.choose k)).map (fun idx => out idx n k)).Pairwise (· < ·) ∧
+    ((List.range (n.choose k)).map (fun idx => out idx n k)).Nodup ∧
+    ∀ c, c ∈ (List.range (n.choose k)).map (fun idx => out idx n k) ↔ IsComb n k c := by
+  refine ⟨by simp, ?_, ?_, ?_⟩
+  · rw [List.pairwise_map]
+    exact (List.pairwise_lt_range (n := n.choose k)).imp_of_mem
+      (fun {a b} _ hb hab => C15_monotone a b n k (List.mem_range.1 hb) hab)
+  · refine List.Nodup.map_on ?_ List.nodup_range
+    intro a ha b hb he
+    exact C15_injective a b n k (List.mem_range.1 ha) (List.mem_range.1 hb) he
+  · intro c
+    rw [List.mem_map]
+    constructor
+    · rintro ⟨idx, hidx, rfl⟩
+      exact C15_valid idx n k (List.mem_range.1 hidx)
+    · intro hc
+      obtain ⟨idx, hlt, ho⟩ := C15_surjective n k c hc
+      exact ⟨idx, List.mem_range.2 hlt, ho⟩
+
+/-- The call-site pattern for GENERAL `k` (production uses `k = 3`, `C15_callsite`): whenever the
+    indices are drawn under numpy's contract from the population `C(n,k)` with size
+    `min(C(n,k), budget)`, no index `≥ C(n,k)` is ever passed to the unranking function (so it neither
+    divides by zero, nor exhausts its loop, nor repeats the last combination), the combinations
+    used are pairwise distinct `k`-subsets, there are `min(C(n,k), budget)` of them, and every
+    `k`-subset is used when the budget covers `C(n,k)`. -/
+theorem C15_callsite_general_k (n k budget : Nat) (choice : List Nat)
+    (hc : Batchie.UnrankCallsite.ChoiceContract (n.choose k) (min (n.choose k) budget) choice) :
+    (∀ idx ∈ choice, idx < n.choose k ∧
+        (run (idx : Int) (n : Int) (k : Int)).err = false ∧ (run (idx : Int) (n : Int) (k : Int)).oof = false ∧
+        IsComb n k (out idx n k)) ∧
+    (choice.map (fun idx => out idx n k)).length = min (n.choose k) budget ∧
+    (choice.map (fun idx => out idx n k)).Nodup ∧
+    (n.choose k ≤ budget → ∀ c, IsComb n k c → c ∈ choice.map (fun idx => out idx n k)) := by
+  obtain ⟨hnd, hlt, hlen⟩ := hc
+  refine ⟨?_, by simp [hlen], ?_, ?_⟩
+  · intro idx hidx
+    have h := hlt idx hidx
+    exact ⟨h, (C15_no_error idx n k h).1, (C15_no_error idx n k h).2, C15_valid idx n k h⟩
+  · refine List.Nodup.map_on ?_ hnd
+    intro a ha b hb he
+    exact C15_injective a b n k (hlt a ha) (hlt b hb) he
+  · intro hle c hcomb
+    have hp : choice.Perm (List.range (n.choose k)) :=
+      perm_range_of_contract (N := n.choose k) (choice := choice) ⟨hnd, hlt, by rw [hlen, Nat.min_eq_left hle]⟩
+    obtain ⟨idx, hidx, ho⟩ := C15_surjective n k c hcomb
+    exact List.mem_map.2 ⟨idx, hp.mem_iff.2 (List.mem_range.2 hidx), ho⟩
+
 /-! ### the call site inside `dbal_fast_gauss_scoring_vectorized` (`Model/UnrankCallsite.lean`) -/
 
 section callsite
@@ -271,5 +345,9 @@ example : Batchie.UnrankCallsite.ChoiceContract (Batchie.UnrankCallsite.comb3 5)
 example : Batchie.UnrankCallsite.triplesOf 5 [7, 0, 9, 3] = [(4, 3, 0), (2, 1, 0), (4, 3, 2), (3, 2, 1)] := by
   decide +kernel
 example : Batchie.UnrankCallsite.comb3 3000 = 4495501000 := by decide +kernel
+
+-- general k: a contract-satisfying draw for (n, k) = (6, 4), C(6,4) = 15, budget 5 / budget 100
+example : Batchie.UnrankCallsite.ChoiceContract (Nat.choose 6 4) (min (Nat.choose 6 4) 5) [14, 0, 7, 3, 9] := by decide
+example : Batchie.UnrankCallsite.ChoiceContract (Nat.choose 4 2) (min (Nat.choose 4 2) 100) [5, 0, 4, 3, 1, 2] := by decide
 
 end Batchie.Props.C15
